@@ -25,7 +25,7 @@ def run(pid, tier, seed):
     chk.rule = ("presentation groups (gen/presgen.py): for every non-recursive generated type F (structs, enums in every representation, "
                 "instantiated generics) and containers of it (Option, Vec, HashMap value, Box, arrays of 0..3 and 63..65 elements), parents of four shapes (named struct, tagged struct whose only member is the field, "
                 "newtype, struct variant) present one field of type F by name / #[ts(inline)] / #[ts(flatten)] (object-like F) / "
-                "#[ts(as = \"F\")] on a field of another type / container-level as; plus inlined-inside-flattened and vice versa. Oracle "
+                "#[ts(as = \"F\")] on a field of another type / on a newtype or struct variant of an enum of every representation / container-level as; plus inlined-inside-flattened and vice versa. Oracle "
                 "(tsmodel, bounded mutual inclusion of enumerated inhabitants): by-name ~ inline; flatten ~ `{ own } & (F)` built by the model; "
                 "the `as` declaration is textually the twin's; container-level as ~ F; for every exportable type inline() ~ name() resolved "
                 "through the declarations. distinct_nontrivial = distinct (check, shape, kind of F, representation of F)")
@@ -100,6 +100,13 @@ def run(pid, tier, seed):
                             if not res["equal"]:
                                 chk.violation(f"C14|as-differs-from-twin|{g['shape']}|{g['kind']}", f"as = \"{g['ftype']}\" gives `{res['as'][:200]}`, a field of "
                                               f"that type gives `{res['twin'][:200]}`", wit, tags=ttags + ktags + ["as"])
+                            continue
+                        if cname.endswith("=twin"):
+                            chk.add_distinct((cname, g.get("variant_rep"), g["kind"]))
+                            if not res["equal"]:
+                                chk.violation(f"C14|{cname.split('=')[0]}-differs-from-twin|{g.get('variant_rep')}|{g['kind']}",
+                                              f"#[ts(as = \"{g['ftype']}\")] on a variant of a {g.get('variant_rep')} enum gives `{res['as'][:200]}`, a "
+                                              f"variant holding that type gives `{res['twin'][:200]}`", wit, tags=ttags + ktags + ["as", "variant-as"])
                             continue
                         for d, v in verdicts(res):
                             chk.violation(f"C14|{cname}|{d}|{g['shape']}|{g['kind']}|{rep}",
